@@ -405,7 +405,8 @@ func Dump(v *V) string {
 	case KMap:
 		xs := make([]string, len(v.M))
 		for i, kv := range v.M {
-			xs[i] = Dump(kv.K) + "=>" + Dump(kv.V)
+			// keys by their identity as keys (-0 and 0 are one key)
+			xs[i] = KeyOf(kv.K) + "=>" + Dump(kv.V)
 		}
 		sort.Strings(xs)
 		return "[" + strings.Join(xs, ",") + "]:" + v.T.Canon()
